@@ -431,6 +431,55 @@ def model_gate_tensor(g, spec):
     f = 1.0 if g["f"] == 0 else FACTORS[g["f"]]
     return expm_antiherm_arg(f, spec["dt"], gen).reshape(g["shape"])
 
+# ---- histories on ONE TEBD object over states the caller wrote down array by array (kind "hist", oracle only) ----------------
+HIST_FIELDS = ["max_bond_dim", "rel_tol", "total_tol", "renorm", "sum_trunc", "sum_renorm"]
+HIST_NAMES = ["n{}", "site1{}", "q", "{}"]      # identifier spellings: n0.., site10.., a prefix chain q, qq, qqq, .., bare digits
+
+
+def hist_setting(rng, kind):
+    """a truncation setting [max_bond_dim, rel_tol, total_tol, renorm, sum_trunc, sum_renorm]; kind 'off': truncation disabled
+    (max_bond_dim inf, or a finite bound far above every possible rank, both tolerances deactivated, value mode, no renormalisation), 'cap': a small max_bond_dim with one
+    of the tolerance idioms of TOL_IDIOMS, 'rand': small max_bond_dim and sizeable tolerances, 'default': the TEBD default (None)"""
+    if kind == "default":
+        return None
+    if kind == "off":
+        # renorm stays off: rescaling the kept singular values changes the state even when nothing is discarded
+        # and value mode: in sum mode the tolerance is squared, total_tol = -inf keeps ONE value (modelled and proved in C10)
+        return [float("inf") if rng.random() < 0.75 else 10 ** 6, _NINF, _NINF, False, False, rng.random() < 0.5]
+    if kind == "cap":
+        rel, tot = TOL_IDIOMS[rng.choice([0, 0] + list(range(len(TOL_IDIOMS))))]
+        return [rng.choice([1, 1, 2, 2, 3]), rel, tot, rng.random() < 0.3, rng.random() < 0.2, rng.random() < 0.5]
+    return [rng.choice([1, 2, 3, 4]), rng.choice([_NINF, 1e-12, 1e-3, 0.2]), rng.choice([_NINF, 1e-12, 1e-6, 0.3]),
+            rng.random() < 0.3, rng.random() < 0.5, rng.random() < 0.5]
+
+
+def hist_exact(setting):
+    """truncation disabled: no bound on the bond (inf or far above every rank of the small members) and both tolerances deactivated"""
+    return setting is not None and setting[0] >= 10 ** 6 and setting[1] == _NINF and setting[2] == _NINF and not setting[3] and not setting[4]
+
+
+def hist_cap(setting):
+    """the configured maximum in force (the dataclass default when the TEBD object was built without parameters)"""
+    return 100 if setting is None else setting[0]
+
+
+def dense_arrays(parents, tens):
+    """dense state of a tree written down as plain arrays with legs (parent, children in index order, physical): pairwise
+    tensordot from the leaves up, axes = the physical legs in node index order (numpy only, no library object involved)"""
+    n = len(parents)
+    ch = [[c for c in range(n) if parents[c] == i] for i in range(n)]
+
+    def sub(i):
+        x = np.asarray(tens[i]).astype(complex)
+        labels = ([("b", i)] if i else []) + [("b", c) for c in ch[i]] + [("o", i)]
+        for c in ch[i]:
+            y, yl = sub(c)
+            x = np.tensordot(x, y, axes=([labels.index(("b", c))], [yl.index(("b", c))]))
+            labels = [l for l in labels if l != ("b", c)] + [l for l in yl if l != ("b", c)]
+        return x, labels
+    x, labels = sub(0)
+    return x.transpose([labels.index(("o", i)) for i in range(n)])
+
 
 class C08(Prop):
     id = "C08"
@@ -459,7 +508,16 @@ class C08(Prop):
             "structure and caller's state as for single steps; plus a few LARGE members with the same driver configurations, oracle only (no model tie): trees of 8-14 "
             "nodes (dimensions 2-3, own pairwise dense contraction), trees of 3-5 nodes with every bond and physical dimension in 4..7 (pair tensors of several "
             "thousand entries, two-site generators up to 49x49), and runs of 9-21 steps; observed after every sub-operation "
-            "of every gate; (swapmat) swap_gate(d), d = 0..6; plus a malformed stream (non-neighbours, unequal SWAP dimensions, three-site terms, "
+            "of every gate; (hist, oracle only) histories on ONE TEBD object over a state the caller wrote down array by array: star / chain / random trees of 2-6 nodes "
+            "(uniform or mixed dimensions 1-3, identifiers n0.. / site10.. / the prefix chain q, qq, qqq / bare digits), nodes of equal shape given ONE ndarray object "
+            "(all / some / none; counted hist:arrays shared=...), complex128 (4 of 5) or float64, one in five read through ttns.tensors before the construction; splittings "
+            "of 2-6 terms with half of the single-site generators exactly diagonal (on-site fields) in mixed / fields-first / fields-last layouts; the constructor's truncation "
+            "setting (disabled: max_bond_dim inf or 10^6 with both tolerances -inf, value mode; a cap 1-3 with every tolerance idiom; random tolerances; the default None) followed by "
+            "1-3 changes — a new SVDParameters assigned to tebd.svd_parameters, or the object in force edited in place through the caller's reference / through the attribute "
+            "(with or without check_truncation_parameters), one in four after reset_to_initial_state — 1-2 steps per phase (counted per class hist:switch off|trunc->off|trunc by ...); "
+            "every step of a phase with truncation disabled = ordered product of the dense gates applied to the state before it (the first one from the caller's arrays by numpy "
+            "alone, afterwards from the state the previous step left; tolerance 1e-8 relative to the largest amplitude the reference passes through within the step), every step of a truncating phase: each bond a two-site gate acts on within [1, the maximum configured "
+            "for THAT phase]; tebd.svd_parameters reports the configured values; structure kept, caller's arrays equal to copies taken before; (swapmat) swap_gate(d), d = 0..6; plus a malformed stream (non-neighbours, unequal SWAP dimensions, three-site terms, "
             "unknown identifiers, wrong operator size, out-of-range from_lists indices) that both sides must reject at the same place. "
             "non-trivial = a tebd case with a two-site gate or a split case with at least two gates")
     clauses = [
@@ -499,7 +557,8 @@ class C08(Prop):
               "bond dimensions within [1, max_bond_dim] under truncation (after every two-site gate and after every step, for random tolerances and for every "
               "tolerance-off idiom of TOL_IDIOMS combined with a binding max_bond_dim); for states whose tensors are scaled over 24 orders of magnitude (uneven gauge, tiny and "
               "huge norm) the comparison is relative to the largest amplitude of the reference (1e-8), so a tiny-norm state is judged as strictly as a normalised one; "
-              "caller's state untouched; every factor built with the configured dt for final times that are not multiples of it; the state left by "
+              "caller's state untouched; for states whose nodes share one caller array, and on one TEBD object whose svd_parameters are re-assigned or edited in place between "
+              "steps (each phase judged by the setting in force: exact product when disabled, bond bound of that phase otherwise); every factor built with the configured dt for final times that are not multiples of it; the state left by "
               "run(evaluation_time) over N steps = (ordered product)^N psi0 for every evaluation interval, with operators measured in between: dense numpy oracle"),
     ]
     trusted_base = ["scipy.linalg.expm (validated against an independent series / eigendecomposition exponential, tolerance 1e-9 relative)",
@@ -564,10 +623,15 @@ class C08(Prop):
                           "nnodes": rng.choice([8, 9, 10, 12, 14]) if big == "nodes" else rng.choice([3, 4, 5]) if big == "dims" else rng.choice([2, 3, 4]),
                           "nsteps": 1, "trunc": j % 6 == 5, "malformed": False, "ints": False, "large": big,
                           "drive": draw_drive(rng, (9, 12, 16, 20) if big == "steps" else (1, 2, 3, 4, 5))})
+        # histories on ONE TEBD object (oracle only): the state written down by the caller array by array (often one array object behind
+        # several nodes, usually not read before the construction), splittings with exactly diagonal single-site factors among the others,
+        # and the truncation setting of the object changed between the steps (re-assigned / edited in place / after a reset)
+        for j in range(ctx.scale(150, 1200) * budget_scale):
+            cases.append({"kind": "hist", "seed": rng.randrange(10 ** 9)})
         return cases
 
     def nontrivial(self, case):
-        return case["kind"] in ("tebd", "split")
+        return case["kind"] in ("tebd", "split", "hist")
 
     def distribution(self, cases):
         c = Counter()
@@ -978,6 +1042,118 @@ class C08(Prop):
                 out[k] = [int(cp.tensors[k].shape[0]), int(cp.tensors[n.parent].shape[cp.nodes[n.parent].neighbour_index(k)])]
         return out
 
+    # ------------------------------------------------------------------------------------------------
+    # hist cases: several phases on ONE TEBD object, the truncation setting changed between them; the state handed over as
+    # plain caller arrays, possibly ONE array object behind several nodes
+    def _hist_case(self, case):
+        from pytreenet.core.node import Node
+        from pytreenet.time_evolution.tebd import TEBD
+        from pytreenet.util.tensor_splitting import SVDParameters
+        rng = random.Random(case["seed"])
+        nprs = np.random.RandomState(case["seed"] % (2 ** 31))
+        n = rng.choice([2, 3, 3, 4, 4, 5, 6])
+        form = rng.choice(["random", "random", "star", "chain"])
+        parents = util.random_parents(rng, n) if form == "random" else [None] + ([0] * (n - 1) if form == "star" else list(range(n - 1)))
+        ch = [[c for c in range(n) if parents[c] == i] for i in range(n)]
+        uniform = rng.random() < 0.7
+        pd, bd = rng.choice([2, 2, 3]), rng.choice([1, 2, 2, 3])
+        phys = [pd if uniform else rng.choice([2, 3]) for _ in range(n)]
+        bond = [None] + [bd if uniform else rng.choice([1, 2, 3]) for _ in range(1, n)]
+        shapes = [tuple(([bond[i]] if i else []) + [bond[c] for c in ch[i]] + [phys[i]]) for i in range(n)]
+        share = rng.choice(["none", "all", "all", "all", "some"])
+        dtype = rng.choice(["c128", "c128", "c128", "c128", "f64"])
+        read_before = rng.random() < 0.2
+        fmt = rng.choice(HIST_NAMES)
+        ids = [("q" * (i + 1)) if fmt == "q" else fmt.format(i) for i in range(n)]
+        # the caller's arrays: nodes of equal shape may be given ONE array object ([leaf] * k handed to add_child_to_parent)
+        arrays, arr_of = [], []
+        by_shape = {}
+        for i in range(n):
+            cand = by_shape.setdefault(shapes[i], [])
+            if cand and (share == "all" or (share == "some" and rng.random() < 0.6)):
+                arr_of.append(rng.choice(cand))
+                continue
+            x = nprs.standard_normal(shapes[i])
+            if dtype == "c128":
+                x = x + 1j * nprs.standard_normal(shapes[i])
+            arrays.append(x)
+            cand.append(len(arrays) - 1)
+            arr_of.append(len(arrays) - 1)
+        kept = [a.copy() for a in arrays]
+        groups = [[ids[i] for i in range(n) if arr_of[i] == k] for k in range(len(arrays))]
+        groups = [g for g in groups if len(g) > 1]
+        site_dims = {ids[i]: phys[i] for i in range(n)}
+        edges = [(ids[parents[i]], ids[i]) for i in range(1, n)]
+        spec = gen_spec(rng, site_dims, edges, rng.randrange(2, 7), allow3=False, from_lists_p=0.25,
+                        mats_kinds=("gen", "real", "herm", "nil", "diag"))
+        for tp in spec["tps"]:
+            if len(tp) == 1 and rng.random() < 0.5:
+                spec["mats"][tp[0][1]][1] = "diag"       # on-site field / number operator: an exactly diagonal factor
+        layout = rng.choice(["mixed", "mixed", "fields-first", "fields-first", "fields-last"])
+        if spec["mode"] == "direct" and layout != "mixed":
+            # the usual layouts of a splitting: all on-site terms, then the bond terms (or the other way round)
+            spec["steps"].sort(key=lambda st: (len(spec["tps"][st["tp"]]) == 1) == (layout == "fields-last"))
+        # the history: the constructor's setting, then 1-3 changes through the public attribute (a new object assigned, or the object
+        # in force edited in place through the caller's reference / through tebd.svd_parameters), optionally after a reset
+        first = rng.choice(["off", "off", "off", "cap", "rand", "default"])
+        phases = [{"how": "ctor", "set": hist_setting(rng, first), "steps": rng.choice([1, 1, 2]), "reset": False}]
+        for _ in range(rng.choice([1, 1, 2, 3])):
+            prev_exact = hist_exact(phases[-1]["set"])
+            kind = rng.choice(["cap", "cap", "cap", "rand", "off"] if prev_exact else ["off", "off", "cap", "rand"])
+            phases.append({"how": rng.choice(["assign", "inplace-caller", "inplace-attr"]), "set": hist_setting(rng, kind),
+                           "steps": rng.choice([1, 1, 2]), "reset": rng.random() < 0.25, "validate": rng.random() < 0.5})
+        total = sum(ph["steps"] for ph in phases)
+        ob = {"notie": True, "parents": parents, "ids": ids, "phys": phys, "bond": bond, "share": share, "groups": groups, "dtype": dtype,
+              "read_before": read_before, "spec": spec, "phases": phases, "dims": site_dims, "psi0": dense_arrays(parents, [kept[k] for k in arr_of])}
+        self._stats[f"hist:arrays shared={'yes' if groups else 'no'} read-before={'yes' if read_before else 'no'} {dtype}"] += 1
+        t0 = TTNS()
+        t0.add_root(Node(identifier=ids[0]), arrays[arr_of[0]])
+        for i in range(1, n):
+            p = parents[i]
+            t0.add_child_to_parent(Node(identifier=ids[i]), arrays[arr_of[i]], 0, ids[p], (1 if p else 0) + ch[p].index(i))
+        if read_before:
+            for k in ids:
+                t0.tensors[k]        # noqa: B018  (the caller looked at the state before handing it over)
+        s0 = self._structure(t0)
+        ob["structure0"] = s0
+        mk = lambda st: None if st is None else SVDParameters(**dict(zip(HIST_FIELDS, st)))      # noqa: E731
+        try:
+            held = mk(phases[0]["set"])
+            tebd = TEBD(t0, realise_spec(spec)[2], spec["dt"], spec["dt"] * total, [], held)
+        except Exception as e:  # noqa
+            ob["construct_error"] = f"{type(e).__name__}: {e}"
+            return ob
+        ob["exponents"] = [{"ids": list(g.node_identifiers), "t": np.array(g.operator)} for g in tebd.exponents]
+        rec = []
+        try:
+            for j, ph in enumerate(phases):
+                if j:
+                    if ph["how"] == "assign" or tebd.svd_parameters is None:
+                        held = mk(ph["set"])
+                        tebd.svd_parameters = held
+                    else:
+                        target = held if (ph["how"] == "inplace-caller" and held is not None) else tebd.svd_parameters
+                        for name, val in zip(HIST_FIELDS, ph["set"]):
+                            setattr(target, name, val)
+                        if ph["validate"]:
+                            target.check_truncation_parameters()
+                        held = target
+                    if ph["reset"]:
+                        tebd.reset_to_initial_state()
+                cfg = tebd.svd_parameters
+                states = []
+                for _ in range(ph["steps"]):
+                    tebd.run_one_time_step()
+                    states.append({"psi": self._dense(tebd.state, ids, tree=True), "bonds": self._bond_dims(tebd.state),
+                                   "structure": self._structure(tebd.state)})
+                rec.append({"reported": [getattr(cfg, f) for f in HIST_FIELDS], "states": states})
+        except Exception as e:  # noqa
+            import traceback
+            ob["step_error"] = f"{type(e).__name__}: {e} @ {traceback.format_exc()[-300:]}"
+        ob["rec"] = rec
+        ob["caller_unchanged"] = bool(all(np.array_equal(a, b) and a.dtype == b.dtype for a, b in zip(arrays, kept)) and self._structure(t0) == s0)
+        return ob
+
     def _swapmat_case(self, case):
         from pytreenet.operators.common_operators import swap_gate
         try:
@@ -995,6 +1171,8 @@ class C08(Prop):
                     out.append(self._split_case(c))
                 elif c["kind"] == "tebd":
                     out.append(self._tebd_case(c))
+                elif c["kind"] == "hist":
+                    out.append(self._hist_case(c))
                 else:
                     out.append(self._swapmat_case(c))
             except Exception as e:  # noqa
@@ -1268,6 +1446,8 @@ class C08(Prop):
             if not np.array_equal(m @ m, np.eye(d * d)):
                 return f"swap_gate({d}) squared is not the identity"
             return None
+        if case["kind"] == "hist":
+            return self._oracle_hist(case, ob)
         if case.get("malformed") and ob.get("malformed_kind"):
             return None
         if case["kind"] == "split":
@@ -1282,6 +1462,91 @@ class C08(Prop):
             return self._oracle_gates(ob["spec"], ob["gates"], dims, use_const=ob["const"] if ob["ttn_dims"] is None else None,
                                       const_for_exp=ob["const"])
         return self._oracle_tebd(case, ob)
+
+    def _oracle_hist(self, case, ob):
+        """a history on one TEBD object: in every phase whose setting disables truncation each step is the ordered product of the dense
+        gates applied to the state before it (the first state from the caller's arrays by numpy alone); in every phase with a configured
+        maximum every bond a two-site gate acts on is within [1, maximum] after every step; structure and the caller's arrays untouched"""
+        spec, dims, ids, phases = ob["spec"], ob["dims"], ob["ids"], ob["phases"]
+        par = ob["parents"]
+        hist = " -> ".join(f"[{ph['how']}{'+reset' if ph['reset'] else ''} {'default' if ph['set'] is None else ph['set'][:3]} x{ph['steps']}]" for ph in phases)
+        desc = (f"tree parents={par} ids={ids} phys={ob['phys']} bonds={ob['bond'][1:]} {ob['dtype']} arrays; one array object behind "
+                f"{ob['groups'] or 'no two nodes'}{', read before construction' if ob['read_before'] else ''}; steps="
+                f"{[(sorted(k for k, _ in spec['tps'][i]), [spec['mats'][m][1] for _, m in sorted(spec['tps'][i])], f) for i, f, _, _ in (spec_steps(spec) or [])]} "
+                f"dt={spec['dt']}; history {hist}")
+        if "construct_error" in ob:
+            return f"valid splitting rejected at construction: {ob['construct_error']} ({desc})"
+        if "step_error" in ob:
+            return f"the history raised {ob['step_error']} ({desc})"
+        d = self._oracle_gates(spec, ob["exponents"], dims)
+        if d:
+            return f"TEBD.exponents: {d} ({desc})"
+        if not ob["caller_unchanged"]:
+            return f"the caller's arrays / initial state were modified ({desc})"
+        exp = expected_gates(spec, dims)
+        axis = {k: j for j, k in enumerate(ids)}
+        s0 = ob["structure0"]
+        touched = set()
+        for e in exp:
+            if len(e[1]) == 2:
+                a, b = e[1]
+                touched.add(a if s0["nodes"][a][0] == b else b)
+        psi0 = np.array(ob["psi0"], dtype=complex)
+        psi = psi0
+        stepno = 0
+        for j, (ph, rc) in enumerate(zip(phases, ob["rec"])):
+            want = [100, 1e-15, 1e-15, False, False, True] if ph["set"] is None else ph["set"]
+            if list(rc["reported"]) != list(want):
+                return f"phase {j}: tebd.svd_parameters reports {rc['reported']}, configured {want} ({desc})"
+            exact = hist_exact(ph["set"])
+            mb = hist_cap(ph["set"])
+            if j:
+                self._stats[f"hist:switch {'off' if hist_exact(phases[j - 1]['set']) else 'trunc'}->{'off' if exact else 'trunc'} by {ph['how']}"
+                            + ("+reset" if ph["reset"] else "")] += 1
+            if ph["reset"]:
+                psi = psi0
+            for ss in rc["states"]:
+                stepno += 1
+                where = f"step {stepno} (phase {j}: {ph['how']}, max_bond_dim={mb}, rel_tol={want[1]}, total_tol={want[2]})"
+                if ss["structure"] != s0:
+                    return f"{where}: identifiers / parent-child relations changed: {self._diff_structure(s0, ss['structure'])} ({desc})"
+                if isinstance(ss["psi"], str):
+                    return f"{where}: the state cannot be contracted: {ss['psi']} ({desc})"
+                for k, (dc, dp) in ss["bonds"].items():
+                    if dc != dp:
+                        return f"{where}: bond above {k} has different dimensions at its two ends ({dc}, {dp}) ({desc})"
+                if exact:
+                    # the factors need not be unitary (generic generators, complex factors) and successive factors may nearly cancel: the
+                    # tolerance is relative to the largest amplitude the reference passes through WITHIN this step, and every step starts
+                    # from the state the previous one left (the statement is per step)
+                    peak = max(1.0, float(np.max(np.abs(psi))))
+                    for e in exp:
+                        if e[0] == "swap":
+                            a, b = e[1]
+                            psi = np.swapaxes(psi, axis[a], axis[b])
+                        else:
+                            sites = list(e[1])
+                            psi = apply_local(psi, [axis[s] for s in sites], e[2].reshape([dims[s] for s in sites] * 2))
+                        peak = max(peak, float(np.max(np.abs(psi))))
+                    got = ss["psi"]
+                    if got.shape != psi.shape or not rel_close(got, psi, 1e-8, floor=peak):
+                        return (f"{where}: truncation disabled, but the state differs from the ordered product of the dense gates applied to the "
+                                f"state before (max diff {float(np.max(np.abs(got - psi))) if got.shape == psi.shape else 'shape'}, "
+                                f"largest amplitude {float(np.max(np.abs(psi))):.2e}, largest intermediate amplitude {peak:.2e}) ({desc})")
+                    self._stats["hist:exact-step-validated"] += 1
+                    psi = np.array(got, dtype=complex)
+                else:
+                    for k in sorted(touched):
+                        dc = ss["bonds"][k][0]
+                        if not 1 <= dc <= mb:
+                            return (f"{where}: bond above {k} has dimension {dc}, outside [1, {mb}] = the maximum configured for this phase "
+                                    f"(bonds {dict((b, v[0]) for b, v in ss['bonds'].items())}) ({desc})")
+                    if touched and any(ss["bonds"][k][0] == mb for k in touched):
+                        self._stats["hist:a-bond-equals-max"] += 1
+                    psi = np.array(ss["psi"], dtype=complex)       # continue from the truncated state
+        if len(ob["rec"]) != len(phases):
+            return f"the history stopped after {len(ob['rec'])} of {len(phases)} phases ({desc})"
+        return None
 
     @staticmethod
     def _as_operator(g, sites):
